@@ -334,6 +334,7 @@ type observation struct {
 	Collector    []string `json:"collector_per_event"` // e.g. "queued", "full", "" per event
 	Sent         []string `json:"sent_per_event"`      // destinations per event
 	Stray        []string `json:"unattributed,omitempty"`
+	Panic        string   `json:"handler_panic,omitempty"`
 }
 
 func marker(i int) string { return fmt.Sprintf("e%d", i) }
@@ -455,7 +456,15 @@ func (w *worker) run(c caseT) observation {
 			if h == nil {
 				ev.Harness("no direct handler for %s", c.EP.Family)
 			}
-			h(rw, req)
+			func() {
+				// no mux, hence no panicCatcher middleware around this call: a panic is recorded, not propagated
+				defer func() {
+					if p := recover(); p != nil {
+						o.Panic = trunc(fmt.Sprint(p), 200)
+					}
+				}()
+				h(rw, req)
+			}()
 		} else {
 			n.ServeHTTP(c.Listener, rw, req)
 		}
@@ -588,6 +597,10 @@ func judge(c caseT, o observation) []finding {
 	}
 	if o.GRPCBoth != "" {
 		add("second-status", "gRPC handler must return exactly one of response / error: "+o.GRPCBoth)
+	}
+
+	if o.Panic != "" {
+		add("second-status", "the handler panicked after (or instead of) answering — behind the panic middleware that is one more WriteHeader(500): "+o.Panic)
 	}
 
 	// R2 whole-request error status => none of its events forwarded or buffered
@@ -738,6 +751,13 @@ func main() {
 		pool <- w
 	}
 
+	// evidence samples: a fixed, schedule-independent selection (two-fault scripts on 2-event requests, every 37th)
+	sampleAt, samples := map[int]bool{}, map[int]any{}
+	for i, c := range cases {
+		if len(sampleAt) < 10 && len(c.Script) == 2 && c.N == 2 && c.Route == "self-span" && c.Listener == pipeline.Incoming && i%37 == 0 {
+			sampleAt[i] = true
+		}
+	}
 	var mu sync.Mutex
 	var found []finding
 	enumx.Each(r, "fault-scripts", []int{len(cases)}, workers, func(idx []int) {
@@ -767,9 +787,10 @@ func main() {
 		if len(c.Script) > 0 {
 			r.Distinct("distinct_nontrivial", c.EP.Sig+"|"+c.kinds()+"|"+c.Route+"|"+o.class(c))
 		}
-		if len(c.Script) == 2 && c.N == 2 && c.Route == "self-span" && c.Listener == pipeline.Incoming && r.Count("sampled") < 10 && idx[0]%37 == 0 {
-			r.Add("sampled", 1)
-			r.Sample(map[string]any{"case": c.desc(), "observed": o})
+		if sampleAt[idx[0]] {
+			mu.Lock()
+			samples[idx[0]] = map[string]any{"case": c.desc(), "observed": o}
+			mu.Unlock()
 		}
 	})
 	for i := 0; i < workers; i++ {
@@ -835,6 +856,14 @@ func main() {
 			map[string]any{"case": f.Case, "observed": f.Obs})
 	}
 	r.Set("failing_cases", len(found))
+	var sk []int
+	for k := range samples {
+		sk = append(sk, k)
+	}
+	sort.Ints(sk)
+	for _, k := range sk {
+		r.Sample(samples[k])
+	}
 
 	r.Set("rule", "per case: (R1) one status: ≤1 WriteHeader call, no second document after the first in the response body, gRPC returns exactly one of response/error; (R2) whole-request error status ⇒ no event of the request in the collector (queued/kept) or on the wire after Flush; (R3) success on a non-batch endpoint ⇒ at least one of its valid events was handed to the collector or a transmission; (R4) batch success ⇒ n statuses, status_i = 400 if event i empty, 429 if its queue admission was refused, else 202, and 202 ⇔ accepted exactly where observed, 429 ⇔ refused exactly where observed")
 	r.Set("bounds", map[string]any{"endpoints": len(endpoints), "batch_sizes": "1..3 (single-event endpoint: 1)", "event_routes": []string{"self-span", "peer-span", "non-trace"},
